@@ -36,6 +36,10 @@
 (*                             changed, or getters not reflecting the calls  *)
 (*   C11/mapping-left/<what>   after Destroy: maps | file | fd               *)
 (*   C11/panic/<call>          the call panicked                             *)
+(*   C11/mapping-left/failed-new[-fd]  a constructor call that returned an   *)
+(*                             error left a mapping / a descriptor behind    *)
+(*                             (extension: the statement speaks of creating  *)
+(*                             *then destroying*; see notes/C11.md)          *)
 EXTENDS Integers, Sequences, FiniteSets, TLC
 
 VARIABLES msize,   \* accepted size (Size() observed at New)
@@ -177,6 +181,15 @@ ObsDestroy(e) ==
   ELSE IF e.fds # 0 THEN Fail("C11/mapping-left/fd")
   ELSE /\ alive' = FALSE
        /\ UNCHANGED <<msize, mpage, mmod, pos, mused, tot, unk, wr, bad>>
+
+\* NewFail: a constructor call made at a failure point (driver mode ctorfail);
+\* ret = 1 if it returned an error, maps/fds = what it left behind
+ObsNewFail(e) ==
+  /\ alive' = FALSE
+  /\ UNCHANGED <<msize, mpage, mmod, pos, mused, tot, unk, wr>>
+  /\ bad' = IF e.ret # 0 /\ e.maps # <<>> THEN "C11/mapping-left/failed-new"
+            ELSE IF e.ret # 0 /\ e.fds # 0 THEN "C11/mapping-left/failed-new-fd"
+            ELSE ""
 
 Obs(e) ==
   IF e.pan # 0 THEN Fail("C11/panic/" \o e.ev) ELSE
